@@ -449,7 +449,7 @@ func callTreeWorkload(c Case, tier string, res *CaseResult, each func(tr treeRun
 func callTreeCases(seed uint64, tier string, salt uint64) []Case {
 	ng, nt := 700, 60
 	if !quick(tier) {
-		ng, nt = 30000, 2000
+		ng, nt = 12000, 800
 	}
 	var cs []Case
 	for i := 0; i < ng; i++ {
